@@ -97,3 +97,17 @@ Fixpoint tok_mismatches (i : nat) (cs : list tokcase) : list (nat * Z) :=
   | c :: r => let k := tok_check c in
               if k =? 0 then tok_mismatches (S i) r else (i, k) :: tok_mismatches (S i) r
   end.
+
+(* precipitation correction, the whole finite domain: one year of 10.0 mm days read by the real
+   reader with twelve pairwise different monthly factors; obs = REG of day index 0, 1, ... *)
+Fixpoint preco_diffs (corr : list float) (jar : Z) (idx : nat) (obs : list float) : list Z :=
+  match obs with
+  | [] => []
+  | o :: r =>
+      let want := w_prec (norm_cell corr jar idx (mkw 0 0 0 0 0 1 10)%float) in
+      if float_same want o then preco_diffs corr jar (S idx) r else Z.of_nat idx :: preco_diffs corr jar (S idx) r
+  end.
+
+(* [] = the model's factor equals the reader's on every day of the year and the year has its length *)
+Definition preco_sweep (corr : list float) (jar : Z) (obs : list float) : list Z :=
+  (if Z.of_nat (List.length obs) =? ylen jar then [] else [-1]) ++ preco_diffs corr jar 0 obs.
